@@ -55,8 +55,11 @@ impl Drop for State {
     fn drop(&mut self) {
         let is_rx_open = !self.rx.is_closed();
         let is_tx_open = !self.tx.is_closed();
+        // A receiving half that was reset still has to be detached. Otherwise a reset that the
+        // application never read would keep the stream, and its stream credit, alive forever.
+        let is_rx_reset = self.rx.is_reset();
 
-        if is_rx_open || is_tx_open {
+        if is_rx_open || is_tx_open || is_rx_reset {
             let mut request = self.request();
 
             if is_tx_open {
@@ -73,6 +76,8 @@ impl Drop for State {
                 request
                     .stop_sending(application::Error::UNKNOWN)
                     .detach_rx();
+            } else if is_rx_reset {
+                request.detach_rx();
             }
 
             let _ = request.poll(None);
